@@ -24,7 +24,7 @@ pub const FIXED: [usize; 10] = [
     usize::MAX,
 ];
 
-pub const ENTRIES: [&str; 16] = [
+pub const ENTRIES: [&str; 26] = [
     "Arc<T>::clone",
     "Arc<[T]>::clone",
     "Arc<dyn>::clone",
@@ -41,6 +41,16 @@ pub const ENTRIES: [&str; 16] = [
     "arc-swap RefCnt::inc",
     "Arc<HeaderSlice<H,[T]>>::clone",
     "Arc<str>::clone",
+    "Arc<T>::clone_from",
+    "Option<Arc<T>>::clone_from",
+    "Vec<Arc<T>>::clone_from",
+    "Arc<[T]>::clone_from",
+    "ThinArc::clone_from",
+    "OffsetArc::clone_from",
+    "ArcUnion(first)::clone_from",
+    "ArcUnion(second)::clone_from",
+    "Arc<dyn>::clone_from",
+    "arc-swap RefCnt::inc (ThinArc)",
 ];
 
 trait Dy {
@@ -181,6 +191,82 @@ pub fn child_main(entry: usize, start: usize) -> ! {
             addr = learn(|| Arc::count(&a), Some(a.heap_ptr() as usize));
             preset(addr, start);
             catch_unwind(AssertUnwindSafe(|| std::mem::forget(a.clone()))).map_err(|_| ())
+        }
+        16 | 17 | 18 => {
+            let a = std::mem::ManuallyDrop::new(Arc::new(7u64));
+            let mut d = std::mem::ManuallyDrop::new(Arc::new(8u64));
+            addr = learn(|| Arc::count(&a), Some(a.heap_ptr() as usize));
+            preset(addr, start);
+            catch_unwind(AssertUnwindSafe(|| match entry {
+                16 => Clone::clone_from(&mut *d, &*a),
+                17 => {
+                    let mut od = std::mem::ManuallyDrop::new(Some(unsafe { std::ptr::read(&*d) }));
+                    let os = std::mem::ManuallyDrop::new(Some(unsafe { std::ptr::read(&*a) }));
+                    Clone::clone_from(&mut *od, &*os);
+                }
+                _ => {
+                    let mut vd = std::mem::ManuallyDrop::new(vec![unsafe { std::ptr::read(&*d) }]);
+                    let vs = std::mem::ManuallyDrop::new(vec![unsafe { std::ptr::read(&*a) }]);
+                    Clone::clone_from(&mut *vd, &*vs);
+                }
+            }))
+            .map_err(|_| ())
+        }
+        19 => {
+            let a: std::mem::ManuallyDrop<Arc<[u16]>> = std::mem::ManuallyDrop::new(Arc::from(vec![1u16, 2, 3]));
+            let mut d: std::mem::ManuallyDrop<Arc<[u16]>> = std::mem::ManuallyDrop::new(Arc::from(vec![4u16]));
+            addr = learn(|| Arc::count(&a), Some(a.heap_ptr() as usize));
+            preset(addr, start);
+            catch_unwind(AssertUnwindSafe(|| Clone::clone_from(&mut *d, &*a))).map_err(|_| ())
+        }
+        20 => {
+            let t = std::mem::ManuallyDrop::new(ThinArc::from_header_and_slice(9u8, &[1u32, 2]));
+            let mut d = std::mem::ManuallyDrop::new(ThinArc::from_header_and_slice(1u8, &[3u32]));
+            addr = learn(|| ThinArc::strong_count(&t), Some(t.heap_ptr() as usize));
+            preset(addr, start);
+            catch_unwind(AssertUnwindSafe(|| Clone::clone_from(&mut *d, &*t))).map_err(|_| ())
+        }
+        21 => {
+            let o = std::mem::ManuallyDrop::new(Arc::into_raw_offset(Arc::new(3u64)));
+            let mut d = std::mem::ManuallyDrop::new(Arc::into_raw_offset(Arc::new(4u64)));
+            addr = learn(|| OffsetArc::strong_count(&o), None);
+            preset(addr, start);
+            catch_unwind(AssertUnwindSafe(|| Clone::clone_from(&mut *d, &*o))).map_err(|_| ())
+        }
+        22 | 23 => {
+            let u: std::mem::ManuallyDrop<ArcUnion<u64, u8>> =
+                std::mem::ManuallyDrop::new(if entry == 22 { ArcUnion::from_first(Arc::new(1u64)) } else { ArcUnion::from_second(Arc::new(1u8)) });
+            let mut d: std::mem::ManuallyDrop<ArcUnion<u64, u8>> =
+                std::mem::ManuallyDrop::new(if start & 1 == 0 { ArcUnion::from_first(Arc::new(2u64)) } else { ArcUnion::from_second(Arc::new(2u8)) });
+            addr = learn(|| ArcUnion::strong_count(&u), None);
+            preset(addr, start);
+            catch_unwind(AssertUnwindSafe(|| Clone::clone_from(&mut *d, &*u))).map_err(|_| ())
+        }
+        24 => {
+            let raw: *const u32 = Arc::into_raw(Arc::new(5u32));
+            let a: std::mem::ManuallyDrop<Arc<dyn Dy>> = std::mem::ManuallyDrop::new(unsafe { Arc::from_raw(raw as *const dyn Dy) });
+            let raw2: *const u32 = Arc::into_raw(Arc::new(6u32));
+            let mut d: std::mem::ManuallyDrop<Arc<dyn Dy>> = std::mem::ManuallyDrop::new(unsafe { Arc::from_raw(raw2 as *const dyn Dy) });
+            addr = learn(|| Arc::count(&a), Some(a.heap_ptr() as usize));
+            preset(addr, start);
+            catch_unwind(AssertUnwindSafe(|| Clone::clone_from(&mut *d, &*a))).map_err(|_| ())
+        }
+        25 => {
+            let t = std::mem::ManuallyDrop::new(ThinArc::from_header_and_slice(9u8, &[1u32, 2]));
+            addr = learn(|| ThinArc::strong_count(&t), Some(t.heap_ptr() as usize));
+            preset(addr, start);
+            #[cfg(feature = "arc-swap")]
+            {
+                use arc_swap::RefCnt;
+                catch_unwind(AssertUnwindSafe(|| {
+                    let _ = <ThinArc<u8, u32> as RefCnt>::inc(&*t);
+                }))
+                .map_err(|_| ())
+            }
+            #[cfg(not(feature = "arc-swap"))]
+            {
+                catch_unwind(AssertUnwindSafe(|| std::mem::forget(t.clone()))).map_err(|_| ())
+            }
         }
         _ => {
             let a: std::mem::ManuallyDrop<Arc<str>> = std::mem::ManuallyDrop::new(Arc::from("héllo"));
